@@ -165,14 +165,15 @@ theorem resolve_depends_only_on_lookup (v : Value) (t1 t2 : SymTab)
 /-! ### address expressions (`calculate_address_offset`)
 
 `NumericValue(int, size_hint=4, mode=EXTENDED)`: only the upper bound 65535 is checked, a negative
-result of any magnitude is accepted. -/
+result of any magnitude is accepted.  Since fix 8dc2b21/316e504 a result above 65535 and a division by
+zero are reported as a TranslationError (`diag`); before the fix the exception escaped (`internal`). -/
 
 section addr
 variable (ss : List Stmt) (ai a k : Nat) (ma mk m : Mode) (hk : Option Nat) (nk ae : Bool)
 
 theorem addrOffset_add (h : addrIntOf ss ai = some a) :
     addrOffset ss (.expr (.address ai ma) (.numeric k hk mk nk) '+' m ae) =
-      if a + k > 65535 then .internal else .ok (.numeric (a + k) (some 4) .extended false) := by
+      if a + k > 65535 then .diag else .ok (.numeric (a + k) (some 4) .extended false) := by
   rw [addrOffset_addr_num ss ai a k ma mk m hk nk ae '+' h]
   have : addrArith '+' a k = some (((a + k : Nat) : Int)) := by simp [addrArith]
   rw [this]
@@ -191,7 +192,7 @@ theorem addrOffset_add_ok (h : addrIntOf ss ai = some a) (hr : a + k ≤ 65535) 
   simp [this]
 
 theorem addrOffset_add_overflow (h : addrIntOf ss ai = some a) (hr : a + k > 65535) :
-    addrOffset ss (.expr (.address ai ma) (.numeric k hk mk nk) '+' m ae) = .internal := by
+    addrOffset ss (.expr (.address ai ma) (.numeric k hk mk nk) '+' m ae) = .diag := by
   rw [addrOffset_add ss ai a k ma mk m hk nk ae h]; simp [hr]
 
 theorem addrOffset_sub_nonneg (h : addrIntOf ss ai = some a) (hr : k ≤ a) (hb : a - k ≤ 65535) :
@@ -221,7 +222,7 @@ theorem addrOffset_sub_neg (h : addrIntOf ss ai = some a) (hr : a < k) :
 
 theorem addrOffset_mul (h : addrIntOf ss ai = some a) :
     addrOffset ss (.expr (.address ai ma) (.numeric k hk mk nk) '*' m ae) =
-      if a * k > 65535 then .internal else .ok (.numeric (a * k) (some 4) .extended false) := by
+      if a * k > 65535 then .diag else .ok (.numeric (a * k) (some 4) .extended false) := by
   rw [addrOffset_addr_num ss ai a k ma mk m hk nk ae '*' h]
   have : addrArith '*' a k = some (((a * k : Nat) : Int)) := by simp [addrArith]
   rw [this]
@@ -233,7 +234,7 @@ theorem addrOffset_mul (h : addrIntOf ss ai = some a) :
     simp only [addrResult, h', h1, h2, if_false, Int.natAbs_natCast, decide_false]
 
 theorem addrOffset_div_zero (h : addrIntOf ss ai = some a) :
-    addrOffset ss (.expr (.address ai ma) (.numeric 0 hk mk nk) '/' m ae) = .internal := by
+    addrOffset ss (.expr (.address ai ma) (.numeric 0 hk mk nk) '/' m ae) = .diag := by
   rw [addrOffset_addr_num ss ai a 0 ma mk m hk nk ae '/' h]; rfl
 
 theorem addrOffset_div (h : addrIntOf ss ai = some a) (hk0 : k ≠ 0) (hb : a / k ≤ 65535) :
